@@ -4,6 +4,7 @@
 # of /repo without and with the seeded change and patches the two demo fields of
 # seeded/<PID>-<name>/result.json.
 #   mode gomod      : demo/ is an external module whose go.mod replaces wa-lang.org/wa => /tmp/seed-<PID>
+#   mode gomod-run  : same, but the demonstration is a main package (go run .)
 #   mode runsh-tree : demo/run.sh <tree>
 #   mode runsh-wa   : build the wa CLI from the tree, demo/run.sh <wa binary>
 set -u
@@ -17,6 +18,7 @@ trap 'git -C /repo worktree remove --force "$WT" >/dev/null 2>&1; rm -rf "$WT" /
 run_demo() {
   case $MODE in
     gomod) (cd "$OUT/demo" && cp /verif/go.sum . 2>/dev/null; go test -count=1 ./... ) ;;
+    gomod-run) (cd "$OUT/demo" && cp /verif/go.sum . 2>/dev/null; go run . ) ;;
     runsh-tree) bash "$OUT/demo/run.sh" "$WT" ;;
     runsh-wa) (cd "$WT" && go build -o /tmp/seed-demo-wa-$PID .) && bash "$OUT/demo/run.sh" /tmp/seed-demo-wa-$PID ;;
   esac
